@@ -773,17 +773,18 @@ func (u *unit) key(cf config, what string, bad []int, errText string) map[string
 }
 
 type stats struct {
-	mu          sync.Mutex
-	cases       int
-	configsRun  int
-	rejected    int
-	drift       int
-	modelOnly   int
-	modelAgreed int
-	byCoinc     map[string]int
-	byConfig    map[string]int
-	executions  int
-	rejectedWhy map[string]int
+	mu              sync.Mutex
+	cases           int
+	configsRun      int
+	rejected        int
+	drift           int
+	modelOnly       int
+	modelAgreed     int
+	byCoinc         map[string]int
+	byConfig        map[string]int
+	executions      int
+	rejectedWhy     map[string]int
+	rejectedSamples []interface{}
 }
 
 // process compiles every unit under its configurations, executes inputs and
@@ -902,6 +903,9 @@ func compare(r *core.Run, u *unit, results map[string]*jobResult, st *stats) {
 				reason = reason[:90]
 			}
 			st.rejectedWhy[reason]++
+			if len(st.rejectedSamples) < 3 {
+				st.rejectedSamples = append(st.rejectedSamples, map[string]interface{}{"config": cf.String(), "error": o.Err, "input": p.Files})
+			}
 			st.mu.Unlock()
 			continue
 		}
@@ -1213,6 +1217,7 @@ func Run(r *core.Run) {
 	r.Set("configurations_run", st.configsRun)
 	r.Set("configurations_rejected_by_esbuild", st.rejected)
 	r.Set("configurations_rejected_reasons", st.rejectedWhy)
+	r.Set("configurations_rejected_samples", st.rejectedSamples)
 	r.Set("node_executions", st.executions)
 	r.Set("by_coincidence", st.byCoinc)
 	r.Set("by_configuration", st.byConfig)
